@@ -6,17 +6,22 @@ from ..core import Verdict
 from ..refs import expr_ref as E
 
 ID = "C02"
-RULE = ("Histories of solve() calls on three long-lived instances (default AtomBase; an accumulating atom whose + extends its left operand in place; custom name-lookup atom whose "
-        "constructor raises on 'boom' with the operator subset par/mul/truediv/add; string-concatenating atom with a "
-        "custom step order as in the docs). Each call draws a valid expression of that configuration or one built to "
-        "fail at a chosen token index k (unknown atom / raising atom constructor as the k-th atom, parenthesis left "
-        "open after k tokens, missing operand at the end, wrong argument count in a function, an unknown atom 1-8 "
-        "parenthesis levels down; atoms with quote characters); strategy long_history = 40-70 calls, most of them "
-        "failing below nested parentheses. Oracle: a FRESH instance "
-        "of the same configuration created for that call must give the same value, or both must raise the same "
-        "exception type. Non-trivial: the history contains a failing solve with >=1 token already stored followed "
-        "Round 6: a configuration that leaves an operator without a step; user-defined operators whose constructor reads input. Round 5: calls made inside a with-block that the exception leaves; an atom type given as a factory function. Round 4: fresh-instance answers are taken BEFORE the history as well (process-wide state), numpy error handling must be what it was after every call, names ending in e next to a sign. "
-        "later by an expression that succeeds on the fresh instance. Distinct = distinct case JSON.")
+RULE = (
+    'Histories of solve() calls on three long-lived instances (default AtomBase; an accumulating atom whose + '
+    "extends its left operand in place; custom name-lookup atom whose constructor raises on 'boom' with the "
+    'operator subset par/mul/truediv/add; string-concatenating atom with a custom step order as in the docs). '
+    'Each call draws a valid expression of that configuration or one built to fail at a chosen token index k '
+    '(unknown atom / raising atom constructor as the k-th atom, parenthesis left open after k tokens, missing '
+    'operand at the end, wrong argument count in a function, an unknown atom 1-8 parenthesis levels down; atoms '
+    'with quote characters); strategy long_history = 40-70 calls, most of them failing below nested parentheses. '
+    'Oracle: a FRESH instance of the same configuration created for that call must give the same value, or both '
+    'must raise the same exception type. Non-trivial: the history contains a failing solve with >=1 token already '
+    'stored followed later by an expression that succeeds on the fresh instance. Round 4: fresh-instance answers '
+    'are taken BEFORE the history as well (process-wide state), numpy error handling must be what it was after '
+    'every call, names ending in e next to a sign. Round 5: calls made inside a with-block that the exception '
+    'leaves; an atom type given as a factory function. Round 6: a configuration that leaves an operator without a '
+    'step; user-defined operators whose constructor reads input. Distinct = distinct case JSON.'
+)
 ASSUMPTIONS = ["single-threaded histories", "exception messages are not compared (they embed token reprs), only the type"]
 NT_FLOOR = 0.15
 
